@@ -368,12 +368,17 @@ class Call:
         return result
 
     def eval_new_data_proportion(self, data_mask):
+        # The trials can be passed by position or by keyword: 'prop(y, n)' or 'prop(y, trials=n)'
+        if len(self.call.args) > 1:
+            trials = self.call.args[1]
+        else:
+            trials = self.call.kwargs["trials"]
         if self._intermediate_data.trials_type == "constant":
             # Return value passed in the second component
-            result = np.ones(len(data_mask.index)) * self.call.args[1].value
+            result = np.ones(len(data_mask.index)) * trials.eval(data_mask, self.env)
         else:
             # Extract name of the second component
-            name = self.call.args[1].name
+            name = trials.name
             values = data_mask[name]
             if isinstance(values, pd.Series):
                 values = values.values
